@@ -6,5 +6,7 @@ cd "$HERE/harness"
 ln -sfn "${VERIF_REPO:-/repo}" .repo
 [ -f Cargo.lock ] || cp /repo/Cargo.lock Cargo.lock
 CARGO_NET_OFFLINE=true cargo build --release --offline --bin check
+# self-test of the reference models (RFC 3986 section 5.4 examples, strict parsers)
+CARGO_NET_OFFLINE=true cargo test --release --offline --lib >/dev/null 2>&1 || { echo "reference model self-test failed"; exit 1; }
 mkdir -p "$HERE/evidence" "$HERE/replays"
 echo "setup ok"
